@@ -196,6 +196,58 @@ pub fn near_powers(k: u32, p: u64, seed: u64) -> Vec<Dec> {
             }
         }
     }
+    // algebraic and word-level neighbours of exact powers whose root is a short head times a power of ten (so
+    // that its guard digits are all zero and the exactness test alone decides the last digit):
+    //   R^k + c*R^(k-1)  (c = -1, 1, 2, 3): divisible by R^(k-1) without being a power;
+    //   R^k +- 2^e       (e = 32, 64, 96, 128): the difference vanishes in a truncated word comparison;
+    // R = head * 10^z for every z up to 24: R crosses every machine-word window
+    let mut heads: Vec<BigInt> = vec![];
+    for len in 1..=(p as usize).min(3) {
+        for (_, d) in patterns(len, seed) {
+            heads.push(big(&d));
+        }
+    }
+    for head in ["1", "2", "9", "49"] {
+        let mut r = String::from(head);
+        while r.len() < p as usize {
+            r.push('0');
+        }
+        r.truncate(p as usize);
+        r.push('5');
+        heads.push(big(&r));
+    }
+    heads.sort();
+    heads.dedup();
+    for h in heads {
+        for z in 0..=24u64 {
+            let r = &h * pow10(z);
+            let mut rk1 = BigInt::from(1);
+            for _ in 1..k {
+                rk1 *= &r;
+            }
+            let pw = &rk1 * &r;
+            let mut cands: Vec<BigInt> = vec![];
+            for c in [-1i64, 1, 2, 3] {
+                cands.push(&pw + &rk1 * c);
+            }
+            for e in [32usize, 64, 96, 128] {
+                let w = BigInt::from(1) << e;
+                cands.push(&pw + &w);
+                if pw > w {
+                    cands.push(&pw - &w);
+                }
+            }
+            for n in cands {
+                if !n.is_positive() {
+                    continue;
+                }
+                // scales: residue 0 and residue 1 modulo k
+                out.push(Dec { n: n.clone(), s: 0 });
+                out.push(Dec { n: n.clone(), s: 2 * k as i128 });
+                out.push(Dec { n, s: 1 });
+            }
+        }
+    }
     out
 }
 
